@@ -38,8 +38,8 @@ ToyRuns(s, cls, id) ==
                          ss \in {IF cls = "l0" THEN 4 ELSE v}, l \in {IF cls = "l0" THEN 0 ELSE IF cls = "0" THEN 4 ELSE v},
                          c \in 1..6 }
     [] s = "dln"  -> { r \in Dom_dln(w) : r.x = v /\ r.a = [i \in 1..DlnK |-> 7] }
-    [] s = "alice" -> { r \in Dom_alice(w) : r.m = v /\ r.rn.alpha = 11 /\ r.rn.beta = 3 /\ r.r = 2 }
-    [] s \in {"bob", "bobwc"} -> { r \in (IF s = "bob" THEN Dom_bob(w) ELSE Dom_bobwc(w)) : r.x = v /\ r.rn.alpha = 11 /\ r.rn.beta = 3 /\ r.r = 2 }
+    [] s = "alice" -> { r \in Dom_alice(w) : r.m = v /\ r.rn.alpha = 13 /\ r.rn.beta = 3 /\ r.r = 2 }
+    [] s \in {"bob", "bobwc"} -> { r \in (IF s = "bob" THEN Dom_bob(w) ELSE Dom_bobwc(w)) : r.x = v /\ r.rn.alpha = 13 /\ r.rn.beta = 3 /\ r.r = 2 }
     [] OTHER -> { r \in (CASE s = "pai" -> Dom_pai(w) [] s = "mod" -> Dom_mod(w) [] OTHER -> {d \in Dom_fac(w) : Keep_fac(d)}) :
                    cls = "key" /\ (s = "pai" => r.xs[1] < 5) /\ (s = "mod" => r.Y[1] < 6) /\ (s = "fac" => r.r.alpha < 3) }
 RowOK(s, cls, id) ==
